@@ -15,7 +15,7 @@ PROP = dict(
                               'member_topic_not_stopped', 'stopped_topic_lets_go', 'gone_member_iff', 'forgotten_by_group',
                               'forgotten_by_channel', 'deleted_account_logged_out',
                               # crossings (Props/C14x.lean; the split of the requests is proved next to the model)
-                              'handleHeld_exiting', 'drain_answers', 'exit_answers_queued', 'setInflight_inflight', 'hub_refuses_inactive',
+                              'handleHeld_exiting', 'drain_answers', 'exit_answers_queued', 'setInflight_inflight', 'drain_releases', 'exit_releases_slots', 'hub_refuses_inactive',
                               'hub_hands_over', 'holdSub_takes_slot']] +
              ["Tinode.World.opLeave_split", "Tinode.World.opPub_split", "Tinode.World.opSub_split"],
     streams=[world.world_stream("C14")],
